@@ -94,7 +94,7 @@ def innerOld [BlockOps β] {o : V} (j : DJac β) (w : V) (curr : β o w) :
 /-- PINNED TREE: one output of one `reverse_chain_rule` call: the dictionary is mutated in place,
     in the order `sorted(set(jac[o]) & set(discipline.jac))`; composed keys are never removed. -/
 def stepRowOld [BlockOps β] {o : V} (vars : List V) (d : Disc β) (r : Row β o) : Row β o :=
-  let common := vars.filter (fun w => (r w).isSome && decide (w ∈ d.jac.rows))
+  let common := vars.filter (fun w => decide (w ∈ d.jac.rows) && (r w).isSome)
   common.foldl (fun acc w =>
     match acc w with
     | some curr => innerOld d.jac w curr (d.jac.cols w) acc
@@ -113,7 +113,7 @@ def inner [BlockOps β] {o : V} (j : DJac β) (w : V) (curr : β o w) :
 /-- The names `sorted(set(row) & set(discipline.io.output_grammar))`. `vars` is the sorted list
     of all the variable names. -/
 def consumedKeys {o : V} (vars : List V) (outs : List V) (r : Row β o) : List V :=
-  vars.filter (fun w => (r w).isSome && decide (w ∈ outs))
+  vars.filter (fun w => decide (w ∈ outs) && (r w).isSome)
 
 /-- REPAIRED TREE: one output of one `reverse_chain_rule` call.  The derivatives with respect to
     the variables the discipline computes are popped from the dictionary (the discipline
